@@ -1,12 +1,180 @@
-/- Driver family `binops`: C03 C04 — archive operation histories.  (stub: replace `family`) -/
+/- Driver family `binops`: C03 C04 — archive operation histories.
+   Model side: `Sys.step` of `Model/BinOps.lean`, printed in the harness' canonical form.
+   Oracle side: `Driver/BinopsOracle.lean` (specification judged on the implementation's lines). -/
 import Driver.Common
+import Driver.BinopsOracle
+import MilaModel.Model.BinOps
 
 namespace Driver.Binops
-open Mila
+open Mila Mila.BinArchive
+
+/-! ### parsing case lines -/
+
+def tyOf : String → Option Ty
+  | "u8" => some .u8 | "u16" => some .u16 | "u32" => some .u32 | "i8" => some .i8
+  | "i16" => some .i16 | "i32" => some .i32 | "f32" => some .f32 | _ => none
+
+def optStrOf (s : String) : Option Str := if s == "~" then none else some (hexOrBad s)
+def optNatOf (s : String) : Option Nat := if s == "~" then none else s.toNat?
+def labelsOf (s : String) : List Str := if s == "!" then [] else (s.splitOn "/").map hexOrBad
+
+def parseOp (f : List String) : Option Op :=
+  let n (s : String) : Nat := s.toNat?.getD 0
+  let b (s : String) : Bool := s == "1"
+  match f with
+  | ["alloc_end", x] => some (.allocEnd (n x))
+  | ["allocate", a, x, g] => some (.allocate (n a) (n x) (b g))
+  | ["deallocate", a, x, g] => some (.deallocate (n a) (n x) (b g))
+  | ["truncate", a] => some (.truncate (n a))
+  | ["r_bytes", a, x] => some (.readBytes (n a) (n x))
+  | ["w_bytes", a, v] => some (.writeBytes (n a) (hexOrBad v))
+  | ["r_str", a] => some (.readStr (n a))
+  | ["r_ptr", a] => some (.readPtr (n a))
+  | ["r_labels", a] => some (.readLabels (n a))
+  | ["r_cstr", a] => some (.readCStr (n a))
+  | ["w_str", a, v] => some (.writeStr (n a) (optStrOf v))
+  | ["w_ptr", a, v] => some (.writePtr (n a) (optNatOf v))
+  | ["w_cstr", a, v] => some (.writeCStr (n a) (hexOrBad v))
+  | ["w_label", a, v] => some (.writeLabel (n a) (hexOrBad v))
+  | ["w_labels", a, v] => some (.writeLabels (n a) (labelsOf v))
+  | ["d_str", a] => some (.delStr (n a))
+  | ["d_ptr", a] => some (.delPtr (n a))
+  | ["d_labels", a] => some (.delLabels (n a))
+  | ["d_label", a, i] => some (.delLabel (n a) (n i))
+  | ["find", s] => some (.find (hexOrBad s))
+  | ["ptr_dests"] => some .ptrDests
+  | ["get_labels"] => some .getLabels
+  | ["R_seek", p] => some (.rSeek (n p))
+  | ["R_skip", x] => some (.rSkip (n x))
+  | ["R_tell"] => some .rTell
+  | ["R_bytes", x] => some (.rBytes (n x))
+  | ["R_str"] => some .rStr
+  | ["R_ptr"] => some .rPtr
+  | ["R_cstr"] => some .rCStr
+  | ["R_label", i] => some (.rLabel (n i))
+  | ["R_labels"] => some .rLabels
+  | ["R_sjis"] => some .rSjis
+  | ["W_seek", p] => some (.wSeek (n p))
+  | ["W_skip", x] => some (.wSkip (n x))
+  | ["W_tell"] => some .wTell
+  | ["W_size"] => some .wSize
+  | ["W_bytes", v] => some (.wBytes (hexOrBad v))
+  | ["W_str", v] => some (.wStr (optStrOf v))
+  | ["W_ptr", v] => some (.wPtr (optNatOf v))
+  | ["W_cstr", v] => some (.wCStr (hexOrBad v))
+  | ["W_label", v] => some (.wLabel (hexOrBad v))
+  | ["W_alloc", x, g] => some (.wAlloc (n x) (b g))
+  | ["W_alloc_end", x] => some (.wAllocEnd (n x))
+  | [op, a] =>
+    if op.startsWith "r_" then (tyOf (op.drop 2).toString).map (fun t => .read t (n a))
+    else if op.startsWith "W_" then (tyOf (op.drop 2).toString).map (fun t => .wWrite t (a.toInt?.getD 0))
+    else none
+  | [op, a, v] =>
+    if op.startsWith "w_" then (tyOf (op.drop 2).toString).map (fun t => .write t (n a) (v.toInt?.getD 0))
+    else none
+  | [op] =>
+    if op.startsWith "R_" then (tyOf (op.drop 2).toString).map (fun t => .rRead t) else none
+  | _ => none
+
+/-! ### printing (must reproduce `state_str` / `exec` of harness/src/fam/binops.rs) -/
+
+def joinOr (sep : String) (l : List String) : String := if l.isEmpty then "-" else sep.intercalate l
+
+def bucketStr (b : List Str) : String :=
+  if b.isEmpty then "!" else "/".intercalate (b.map hexOfBytes)
+
+def sortByKey {α : Type} (l : List (Nat × α)) : List (Nat × α) := l.mergeSort (fun x y => x.1 ≤ y.1)
+
+/-- strict-then-equal lexicographic order of Rust `String` (UTF-8 bytes). -/
+def stateStr (s : Sys) : String :=
+  let a := s.arch
+  let size := a.size
+  let text := (sortByKey (a.text.filter (fun p => p.1 + 4 ≤ size))).map
+    (fun p => toString p.1 ++ ":" ++ hexOfBytes p.2)
+  let ptr := (sortByKey (a.pointers.filter (fun p => p.1 + 4 ≤ size))).map
+    (fun p => toString p.1 ++ ":" ++ toString p.2)
+  let labels := (sortByKey (a.labels.filter (fun p => p.1 + 4 ≤ size || !p.2.isEmpty))).map
+    (fun p => toString p.1 ++ ":" ++ bucketStr p.2)
+  let cstr := (a.cstrings.mergeSort (fun x y => bytesLe x.1 y.1)).map
+    (fun p => hexOfBytes p.1 ++ ":" ++ "/".intercalate (p.2.map toString))
+  "size=" ++ toString size ++ " data=" ++ hexOfBytes a.data ++ " text=" ++ joinOr "," text
+    ++ " ptr=" ++ joinOr "," ptr ++ " labels=" ++ joinOr ";" labels ++ " cstr=" ++ joinOr ";" cstr
+    ++ " r=" ++ toString s.rpos ++ " w=" ++ toString s.wpos
+
+def hasRepl : Bytes → Bool
+  | 0xEF :: 0xBF :: 0xBD :: _ => true
+  | _ :: rest => hasRepl rest
+  | [] => false
+
+/-- Decoded Shift-JIS text, or `dirty` when it leaves the executable sub-codec. -/
+def decStr (raw : Bytes) : String :=
+  let d := Sjis.dec raw
+  if hasRepl d then "dirty" else hexOfBytes d
+
+def outStr : Out → String
+  | .unit => "ok"
+  | .int v => "ok " ++ toString v
+  | .nat v => "ok " ++ toString v
+  | .two x y => "ok " ++ toString x ++ " " ++ toString y
+  | .bytes b => "ok " ++ hexOfBytes b
+  | .optStr none => "ok ~"
+  | .optStr (some s) => "ok " ++ hexOfBytes s
+  | .optRaw none => "ok ~"
+  | .optRaw (some s) => "ok " ++ decStr s
+  | .raw s => "ok " ++ decStr s
+  | .optNat none => "ok ~"
+  | .optNat (some v) => "ok " ++ toString v
+  | .optLabels none => "ok ~"
+  | .optLabels (some b) => "ok " ++ bucketStr b
+  | .nats l => "ok " ++ joinOr "," ((l.mergeSort (fun x y => x ≤ y)).map toString)
+  | .pairs l => "ok " ++ joinOr "," (l.map (fun p => toString p.1 ++ ":" ++ hexOfBytes p.2))
+  | .skipOverflow => "skipov"
+
+def resOut : Res Out → String
+  | .ok o => outStr o
+  | .err e => "err " ++ e.name
+  | .panic => "panic"
+
+def colon (s : String) : String := s.replace " " ":"
+
+/-- The read-back the harness performs after a successful typed / byte write. -/
+def readBack (before after : Sys) : Op → String
+  | .write t addr _ => " rb=" ++ colon (resOut ((after.arch.readTy t addr).map .int))
+  | .wWrite t _ => " rb=" ++ colon (resOut ((after.arch.readTy t before.wpos).map .int))
+  | .writeBytes addr v => " rb=" ++ colon (resOut ((after.arch.readBytes addr v.length).map .bytes))
+  | _ => ""
+
+structure St where
+  id : String
+  sys : Sys
+  obs : Option Oracle.Obs     -- the implementation's previous printed state
+  big : Bool
 
 def family : Family where
-  State := Unit
-  init := ()
-  step := fun _ _ _ => ((), "unimplemented", "FAIL unimplemented")
+  State := Option St
+  init := none
+  step := fun st c i =>
+    match c with
+    | [id, "new", e] =>
+      let big := e == "BE"
+      let sys := Sys.init (if big then .big else .little)
+      let obs := Oracle.parseObs i
+      (some ⟨id, sys, obs, big⟩, "ok | " ++ stateStr sys, Oracle.judgeNew obs)
+    | id :: opf =>
+      match st with
+      | some s =>
+        if s.id != id then (st, "nostate", "FAIL nostate") else
+        match parseOp opf with
+        | none => (st, "badop", "FAIL badop")
+        | some op =>
+          let (sys', r) := s.sys.step op
+          let rb := match r with
+            | .ok _ => readBack s.sys sys' op
+            | _ => ""
+          let obs' := Oracle.parseObs i
+          let verdict := Oracle.judge s.big s.obs obs' op i
+          (some { s with sys := sys', obs := obs' }, resOut r ++ rb ++ " | " ++ stateStr sys', verdict)
+      | none => (st, "nostate", "FAIL nostate")
+    | _ => (st, "bad-case", "FAIL bad-case")
 
 end Driver.Binops
